@@ -11,7 +11,9 @@ Check names are "<method>/<clause>":
   subblock / definition            library value == spec on the sub-blocks (unit link length)
   subblock-linkattr / definition-linkattr   same with the link attribute "lw" as length/strength
   *-unsorted                       (internal_link_attribute and the strengths built on it only)
-                                   the same clause on a node list that is not ascending
+                                   the same clause on a node list that is not ascending; these
+                                   failed before "fix: internal_link_attribute respects the order
+                                   of the node list" and are kept as regression clauses
   sparse-twin                      compiled method == its `_sparse` twin
   arg-symmetry[-linkattr]          f(P,Q) == f(Q,P) (matrices: transposed) on undirected networks
   whole-network[-linkattr]         P = Q = all nodes reproduces the single-network measure
@@ -27,14 +29,13 @@ three names are ordinary violations.
 """
 import itertools
 import json
-import math
 import multiprocessing as mp
 import sys
 import traceback
 
 import numpy as np
 
-from bounded.common import parse_args, Report, jsonable, quiet
+from bounded.common import parse_args, Report, quiet
 from specs.interacting_spec import Spec, UNDEF, great_circle
 
 PROP = "C11"
@@ -703,7 +704,14 @@ def run_graph_task(task):
     except Exception:                # harness trouble inside a worker: report as such
         col.failures.append(("harness/error", {"task": {k: task[k] for k in ("A", "directed")}},
                              traceback.format_exc()[-500:]))
-    return col.evals, col.failures, [(k, nt, None) for k, nt, _ in col.cases[3:]] + col.cases[:3]
+    out, given = [], False
+    for k, nt, smp in col.cases:
+        if smp is not None and nt and not given:
+            out.append((k, nt, smp))
+            given = True
+        else:
+            out.append((k, nt, None))
+    return col.evals, col.failures, out
 
 
 def run_ccn_task(task):
@@ -759,22 +767,22 @@ def make_tasks(tier, seed):
             add(A, False, allp, "unit", "a", nsi_only=True, whole=False)
     # (b) undirected, n = 5 (and n = 6 in the thorough tier): every isomorphism class x every
     #     ordered pair of disjoint non-empty subsets, each list in a seeded random order
-    #     (quick, n = 6: a seeded sample of 40 classes x 60 pairs)
+    #     (quick, n = 6: a seeded sample of 30 classes x 40 pairs)
     for n in (5, 6):
         classes = iso_classes(n)
         sp_ = subset_pairs(n)
         if quick and n == 6:
-            pick = rng.choice(len(classes), size=40, replace=False)
+            pick = rng.choice(len(classes), size=30, replace=False)
             classes = [classes[i] for i in sorted(pick)]
         for A in classes:
             prs = sp_
             if quick and n == 6:
-                prs = [sp_[i] for i in sorted(rng.choice(len(sp_), size=60, replace=False))]
+                prs = [sp_[i] for i in sorted(rng.choice(len(sp_), size=40, replace=False))]
             pairs = [(shuffled(rng, S), shuffled(rng, T)) for S, T in prs]
             add(A, False, pairs, "float", "b")
             # unit / small-integer weights: many pairs with W_P == W_Q, n.s.i. methods only
             kind = "unit" if rng.rand() < 0.5 else "int"
-            sub = pairs if not quick else pairs[::3]
+            sub = pairs[::4] if quick else (pairs[::2] if n == 6 else pairs)
             add(A, False, sub, kind, "b", nsi_only=True, whole=False)
     # (c) directed: n <= 3 all labelled digraphs x all list pairs in all orders; n = 4 every
     #     isomorphism class (quick: a sample) x every subset pair in a random order
@@ -853,8 +861,8 @@ SCOPE = (
     "total_cross_degree, average_cross_closeness, local/global_efficiency, subnetwork, the *_sparse twins) on "
     "(a) undirected graphs n<=4: all isomorphism classes x all ordered pairs of disjoint non-empty node lists in "
     "all orders; (b) n=5 (thorough: and n=6): all isomorphism classes x all ordered pairs of disjoint non-empty "
-    "subsets, each list in a seeded random order (quick: n=5 complete, n=6 a seeded sample of 40 of the 156 classes x "
-    "60 of the 602 subset pairs); (c) directed graphs (methods defined for them): all labelled digraphs n<=3 x all list pairs in "
+    "subsets, each list in a seeded random order (quick: n=5 complete, n=6 a seeded sample of 30 of the 156 classes x "
+    "40 of the 602 subset pairs); (c) directed graphs (methods defined for them): all labelled digraphs n<=3 x all list pairs in "
     "all orders, n=4 all 218 classes (quick: 40) x all subset pairs; (d) seeded random graphs n=7..14 (quick "
     "7..10), p in {.12,.2,.35,.6,.85}, directed every third, random disjoint lists in random order; (e) graphs "
     "with two components and an isolated node; node weights: random floats, unit and small-integer weights (the "
@@ -932,15 +940,49 @@ def main():
         traceback.print_exc()
         sys.exit(3)
     harness_errors = 0
-    for evals, failures, cases in results:
+    step = max(1, len(results) // 8)
+    allfail = []
+    for ti, (evals, failures, cases) in enumerate(results):
         for key, nt, sample in cases:
-            rep.case(key, nt, sample=sample)
+            rep.case(key, nt, sample=sample if ti % step == 0 else None)
         rep.evaluations += max(evals - len(cases), 0)
-        for ch, w_, d in failures:
-            if ch == "harness/error":
-                harness_errors += 1
-                print(d, file=sys.stderr)
+        allfail.extend(failures)
+    # record the most readable witnesses first (Report keeps the first three per check):
+    # small graphs with many links, i.e. connected ones, before sparse / edgeless ones
+    def _rank(f):
+        A = f[1].get("A") if isinstance(f[1], dict) else None
+        if not A:
+            return (1, 0, 0)
+        n = len(A)
+        links = sum(map(sum, A))
+        return (0, -round(links / max(1, n * (n - 1)), 3), n)
+    best = {}
+    for i, f in enumerate(allfail):
+        best.setdefault(f[0], []).append((_rank(f), i))
+    first = set()
+    for ch, lst in best.items():
+        lst.sort()
+        first.update(i for _, i in lst[:3])
+    for i in sorted(first, key=lambda i: (allfail[i][0], _rank(allfail[i]))):
+        rep.fail(*allfail[i])
+    for i, (ch, w_, d) in enumerate(allfail):
+        if ch == "harness/error":
+            harness_errors += 1
+            print(d, file=sys.stderr)
+        if i not in first:
             rep.fail(ch, w_, d)
+    rep.skip("number_cross_links / cross_link_density raise NetworkError('Not implemented yet') on directed "
+             "networks: not evaluated there; clustering, betweenness and n.s.i. methods are evaluated on "
+             "undirected networks only (kernels assume symmetry)")
+    rep.skip("0/0 cases (nsi_cross_transitivity without any cross link raises ZeroDivisionError; "
+             "cross/internal average path length without any finite path gives nan; internal_link_density "
+             "of a one-node list raises ZeroDivisionError): nothing demanded")
+    rep.skip("subnetwork() / CoupledClimateNetwork.network_i() of a one-node list raise ZeroDivisionError in the "
+             "Network constructor (link density 0/0): outside C11, exercised for >= 2 nodes only")
+    rep.skip("link attributes are not used on graphs without links (igraph cannot hold the attribute)")
+    rep.skip("whole-network limit for closeness / n.s.i. closeness / n.s.i. average path length on connected "
+             "graphs only and for transitivity on graphs with a connected triple (the single-network methods "
+             "use other conventions for unconnected pairs / return nan)")
     rep.finish()
     if harness_errors:
         sys.exit(3)
